@@ -10,13 +10,15 @@ def results(case, **over):
     return np.asarray(V.bins, float), np.asarray(V.bin_count), np.asarray(V.experimental, float), V
 
 
-def same(ctx, case, what, base, new, escale=1.0, gscale=1.0, exact=True, sig=None):
+def same(ctx, case, what, base, new, escale=1.0, gscale=1.0, exact=True, sig=None, edges_only=False):
     e0, c0, x0 = base
     e1, c1, x1 = new
     rel = 1e-12 if exact else 1e-9
     if len(e0) != len(e1) or not all(gen.close(a * escale, b, rel, 1e-12) for a, b in zip(e0, e1)):
         ctx.problem('oracle', '%s changes the lag edges' % what, case, {'before': e0.tolist()[:10], 'after': e1.tolist()[:10], 'edge_factor': escale}, sig or {'what': what})
         return False
+    if edges_only:
+        return True
     if c0.tolist() != c1.tolist():
         ctx.problem('oracle', '%s changes the pair counts' % what, case, {'before': c0.tolist(), 'after': c1.tolist()}, sig or {'what': what})
         return False
@@ -105,6 +107,11 @@ def run(ctx, replay=None):
             cs = dict(case, coords=(c + shift).tolist())
             same(ctx, case, 'translating the coordinates', base, results(cs)[:3])
             done += 1
+            # a translation far away from the origin (projected coordinates); still exact for dyadic input with a few fractional bits
+            if np.all(c * 128 == np.round(c * 128)) and np.abs(c).max() < 2 ** 20:
+                big = np.array([2.0 ** 19, 2.0 ** 22 + 2.0 ** 19, -2.0 ** 21][:dim])
+                same(ctx, case, 'translating the coordinates far from the origin', base, results(dict(case, coords=(c + big).tolist()))[:3])
+                done += 1
             # 3 rotation by 90 degrees / reflection (exact), euclidean, 2-D and 3-D
             if dim >= 2:
                 cr = c.copy()
@@ -114,13 +121,19 @@ def run(ctx, replay=None):
                 cf[:, 1] = -cf[:, 1]
                 same(ctx, case, 'reflecting the coordinates', base, results(dict(case, coords=cf.tolist()))[:3])
                 done += 2
-                if case['dist_func'] == 'euclidean' and order_free and not absml:
+                if case['dist_func'] == 'euclidean' and order_free and not absml and zsig is None:       # (a zero-width distance range becomes a 1e-15 one under rotation)
                     cg = c.copy()
                     cg[:, 0] = 0.6 * c[:, 0] - 0.8 * c[:, 1]
                     cg[:, 1] = 0.8 * c[:, 0] + 0.6 * c[:, 1]
                     r2 = results(dict(case, coords=cg.tolist()))[:3]
                     if near_edge(case, base[0], c) or near_edge(case, r2[0], cg):
+                        # a distance within rounding of an edge may change its class; the edges themselves must still agree
                         ctx.count('rotation_skipped_near_edge')
+                        # ... unless a distance sits on the maximum lag itself (then the set of distances the edges are computed from changes)
+                        dd_ = np.asarray(V.distance, float)
+                        on_maxlag = V.maxlag is not None and bool(np.any((np.abs(dd_ - V.maxlag) <= 1e-9 * max(1.0, V.maxlag)) & (dd_ != dd_.max())))
+                        if case['bin_func'] in ('even', 'uniform') and not on_maxlag and not (V.maxlag is not None and abs(dd_.max() - V.maxlag) <= 1e-9 * max(1.0, V.maxlag)):
+                            same(ctx, case, 'rotating the coordinates by atan(4/3)', base, r2, exact=False, edges_only=True)
                     else:
                         same(ctx, case, 'rotating the coordinates by atan(4/3)', base, r2, exact=False)
                         done += 1
@@ -154,6 +167,21 @@ def run(ctx, replay=None):
                 done += 2
             ctx.count('transformations_per_case', done)
             ctx.tests['metamorphic_runs'] = ctx.tests.get('metamorphic_runs', 0) + done
+        # ---- lag edges of tie-rich point sets (lattices) under a generic rotation: the edges may move by rounding only
+        for t in range(8 if not ctx.thorough() else 60):
+            kind, cl = gen.point_set(rng, n=rng.randint(12, 25), dim=2, kind=rng.choice(['lattice', 'lattice', 'line']))
+            _, vl = gen.values(rng, len(cl))
+            cg = np.column_stack((0.6 * cl[:, 0] - 0.8 * cl[:, 1], 0.8 * cl[:, 0] + 0.6 * cl[:, 1]))
+            for bf in ('uniform', 'even'):
+                lc = {'coords': cl.tolist(), 'values': vl.tolist(), 'estimator': 'matheron', 'bin_func': bf, 'bins': None, 'maxlag': None, 'n_lags': rng.randint(3, 9),
+                      'dist_func': 'euclidean', 'tags': {'points': kind, 'stream': 'tie-rich-rotation'}}
+                try:
+                    b0 = results(lc)[:3]
+                    b1 = results(dict(lc, coords=cg.tolist()))[:3]
+                    same(ctx, lc, 'rotating a tie-rich point set by atan(4/3)', b0, b1, exact=False, edges_only=True)
+                    ctx.tests['tie_rich_rotations'] = ctx.tests.get('tie_rich_rotations', 0) + 1
+                except Exception as e:
+                    ctx.count('tie_rich_rejected', type(e).__name__)
         # ---- Cressie-Hawkins: the R-valued specification the C10 theorems speak about, evaluated inside Coq (interval
         # arithmetic) on generated classes, against estimators.cressie
         from fractions import Fraction
